@@ -402,6 +402,19 @@ pub fn targeted() -> Vec<String> {
             v.push(format!("Mix @flour{{1%kg}} then {t} and #pan{{}}.\n\nNext ~{{5%min}} {t}\n"));
         }
     }
+    // recipe paths whose `..` segments cancel everything; mixed numbers whose whole part or improper fraction reach u32::MAX
+    for name in ["./..", "../..", "./a/..", "./sauces/..", "./a/../..", "./a/b/../../..", "./.", ".//", "./", "../", "./sauces//tomato", ".\\x\\..", "./..//.."] {
+        v.push(format!("Serve with @{name}{{}} on the side and @&{name}{{1}} again."));
+        v.push(format!("@@{name}{{2%kg}}"));
+    }
+    for q in ["4294967295 3/2", "4294967290 12/2", "4294967295 1/1", "1 4294967295/1", "4294967295/4294967295", "0 0/1", "4294967294 4294967295/4294967294", "1 1/4294967295", "4294967296 1/2", "4294967295-4294967295 3/2"] {
+        v.push(format!("Mix @flour{{{q}%g}} with #p{{{q}}} for ~{{{q}%min}}."));
+    }
+    // a standard key indented with multi-byte white space inside the front matter, plus a refused value for the same key
+    for ind in ["\u{a0}", "\u{3000}", "\u{2003} ", "\t"] {
+        v.push(format!("---\n{ind}time: 10 min\ntime: soon\n---\nBoil the @water{{1%l}}.\n"));
+        v.push(format!("---\nnote: é\n{ind}servings: a|b\nservings: x\n{ind}locale: zz_\n---\nx\n"));
+    }
     // modes
     for m in ["all", "components", "steps", "text", "bogus", ""] {
         v.push(format!(">> [mode]: {m}\n@a{{1}} text #b ~c{{1%min}}\n\n> para\n\n>> [mode]: steps\n@a @zz"));
